@@ -66,6 +66,10 @@ func genScenario(t *rapid.T) *modsim.Scenario {
 					waitTaskUsed = true
 				}
 			}
+			if w.Kind == "service" && w.Mode == "finish" && rapid.Bool().Draw(t, "svcfails") {
+				// the service worker fails and sits in its back-off wait (longer than the promptness bound) when the module stops
+				w.Fail, w.BackoffMS, w.HoldUS = true, 6000, 200
+			}
 			if w.Kind == "hook" && rapid.Bool().Draw(t, "foreignsource") {
 				w.On = sc.Modules[rapid.IntRange(0, len(sc.Modules)-1).Draw(t, "src")].Name
 			}
